@@ -131,6 +131,19 @@ EXTRA2 = {
     "C09": "og_sharps1/2 (caseless literals, among them sharp s, next to i-literals).",
     "C02": "Label lemma from scope stacks of depth 0, 255 and 256 and with labels under recovery operators; literal position lemma.",
 }
+# round 12 (DESIGN.md 8.19, 8.20)
+EXTRA3 = {
+    "C09": "og_entry_twice/thrice/first (alternate entry points that are leaves referenced several times). Rotation: every subset X of the other generation flags on a third of the optimizer catalogue and composites, (X, X + -optimize-grammar).",
+    "C10": "Rotation: every subset X of {-optimize-basic-latin, -optimize-grammar, -support-left-recursion} over classes, composites and throw grammars, (X, X + -optimize-parser).",
+    "C15": "Case-insensitive classes also as (-optimize-parser, -optimize-parser -optimize-basic-latin); rotation of the other flag subsets over the class catalogue.",
+    "C17": "u8_lit2, u8_lit2i, u8_lit2pred (literals of several characters with something behind them); one of the flag sets opt, bl, all, lr per catalogue grammar in addition to std.",
+    "C11": "One of the flag sets opt, bl, all per fault grammar in addition to std.",
+    "C12": "Quick tier: the failure catalogue also under -optimize-parser.",
+    "C05": "st_throw_2fail, st_throw_2fail_st, st_throw_1fail (throws directly under ? / * with failing recovery expressions and state blocks).",
+    "C20": "Harness_C20term: the rule terminator as a hole for both front ends.",
+}
+for _k, _v in EXTRA3.items():
+    EXTRA2[_k] = (EXTRA2.get(_k, "") + " " + _v).strip()
 for _k, _v in EXTRA2.items():
     EXTRA[_k] = (EXTRA.get(_k, "") + " " + _v).strip()
 
